@@ -338,6 +338,17 @@ Definition brackets : list N := [ch_lbrack; ch_rbrack; ch_lbrace; ch_rbrace; ch_
 (* text that may sit inside {..} or [..]: no brackets/braces/LF, no nowiki opener *)
 Definition wiki_text_ok (s : str) : bool := none_of brackets s && lt_ok s.
 
+(* the name of a non-tag entry (unit, unit class, unit modifier, value class, attribute, property) is one
+   opaque term: a slash or a final '#' -- admitted e.g. through the entry's own allowedCharacter attribute, as
+   in m/s, km/h -- are ordinary characters of it *)
+Definition ename_ok (n : str) : bool :=
+  nonempty n && no_outer_ws n && none_of brackets n && negb (memb ch_lt n) && negb (memb ch_apos n).
+
+(* Schema2XML: the text of the name element.  _write_tag_entry writes the last term of the long name of a
+   tag; _write_entry writes the name of any other entry as it is. *)
+Definition xml_name_text (is_tag : bool) (name : str) : str :=
+  if is_tag then last_component name else name.
+
 (* NameOK: the schema name class has no apostrophe, slash, '<' or blank ends; a final '#'
    selects the value-taking layout of the writer and is treated separately *)
 Definition name_ok (n : str) : bool :=
